@@ -7,6 +7,16 @@ import Batchie.Lemmas.ViewsExpr
 namespace Batchie.Views
 open Batchie.Proto Batchie.Screen
 
+theorem Forall₂.exists_of_mem_right {α β : Type} {R : α → β → Prop} {l₁ : List α} {l₂ : List β} (hr : Forall₂ R l₁ l₂) (b : β) (hb : b ∈ l₂) :
+    ∃ a, a ∈ l₁ ∧ R a b := by
+  induction hr with
+  | nil => cases hb
+  | cons hab _ ih =>
+    rcases List.mem_cons.mp hb with rfl | hb'
+    · exact ⟨_, by simp, hab⟩
+    · obtain ⟨a, ha, h⟩ := ih hb'
+      exact ⟨a, by simp [ha], h⟩
+
 theorem uniqueMaskGo_map_inj {α β : Type} [BEq α] [LawfulBEq α] [BEq β] [LawfulBEq β] (f : α → β)
     (hf : ∀ a b, f a = f b → a = b) (seen ks : List α) :
     uniqueMaskGo (seen.map f) (ks.map f) = uniqueMaskGo seen ks := by
